@@ -384,11 +384,14 @@ def af_rules(run, repo, tier):
         r3.ok('configuration')
 
     # ---- metadata: two runs, all builder calls, both byte orders ---------------------------------------------------
-    for bo, n_runs, indirect in (('little', 1, False), ('big', 3, False), ('little', 2, True), ('little', 1, 'transposed'), ('big', 2, 'shared'), ('little', 2, 'shared')):
-        wr = build(repo, ('P', 'I', 'S', 'D', 'T'), bo, 4, 3, n_runs, 'memory', 'the title', indirect=indirect is True or indirect == 'transposed',
+    for bo, n_runs, indirect, calls in (('little', 1, False, 'PISDT'), ('big', 3, False, 'PISDT'), ('little', 2, True, 'PISDT'), ('little', 1, 'transposed', 'PISDT'),
+                                        ('big', 2, 'shared', 'PISDT'), ('little', 2, 'shared', 'PISDT'),
+                                        # the builder calls in other orders: instrument and sample before the pixel data that registers the runs
+                                        ('little', 2, False, 'ISDPT'), ('big', 1, False, 'SIPDT')):
+        wr = build(repo, tuple(calls), bo, 4, 3, n_runs, 'memory', 'the title', indirect=indirect is True or indirect == 'transposed',
                    transposed=indirect == 'transposed', shared_runs=indirect == 'shared')
-        cfg = f'byteorder={bo} runs={n_runs} mode=' + {False: 'direct', True: 'indirect', 'transposed': 'indirect, en supplied as (energy_transfer, detector)',
-                                                       'shared': 'direct, runs made from one template (shared arrays)'}[indirect]
+        cfg = f'byteorder={bo} runs={n_runs} calls={calls} mode=' + {False: 'direct', True: 'indirect', 'transposed': 'indirect, en supplied as (energy_transfer, detector)',
+                                                                    'shared': 'direct, runs made from one template (shared arrays)'}[indirect]
         if wr.outcome[0] != 'return':
             r5.fail(f'builder [{cfg}]', loc(repo.func(BUILD, 'SqwBuilder.create')), {'outcome': wr.outcome}, key='builder')
             continue
